@@ -452,7 +452,7 @@ TABLE["C14"] = dict(
     imports="""From Coq Require Import List Arith Bool.
 From Corgi Require Import Lib.OptionMonad Lib.Sums Model.Scalar Model.Arr Model.SlicedOp Model.Elementwise Model.Linalg
      Model.Image Model.Ops Model.Engine Proofs.ArrFacts Proofs.EngineDefs Proofs.AdjointSpec Proofs.OptimSpec
-     Proofs.HistoryInv Proofs.ValueConcrete Model.Program Proofs.TrainLoop.
+     Proofs.HistoryInv Proofs.ValueConcrete Model.Program Proofs.TrainLoop Proofs.TrainInterleave.
 Import ListNotations.""",
     intro="""[ready s]: the state invariant of the training loop - the program state is good (HistoryInv), every layer
 parameter is a tracked leaf without closure and WITHOUT gradient, parameter nodes are pairwise distinct.
@@ -474,6 +474,9 @@ ValueConcrete.v (the real engine's run IS a run of E' on good stores).""",
         ("C14_slots_are_table_entries", "model_backward_slots", "after backward every parameter slot is old + adjoint-table entry"),
         ("C14_double_backward", "double_backward_slots", "two backward calls before one update: the slot holds both tables' entries"),
         ("C14_no_leak", "update_no_leak", "after update no layer handle refers to a node holding a gradient or a graph"),
+        ("C14_harmless_instruction", "step_harmless", "leaf construction, clones, drops, reads and Model::forward between backward and update keep every parameter's handle, values and stored gradient, and the update precondition"),
+        ("C14_interleaved_update", "interleaved_update_same_values", "any program of such instructions (e.g. validation forwards) between backward and update: the update still succeeds and re-binds every parameter to exactly the arrays the immediate update would have produced"),
+        ("C14_forward_between_backward_and_update", "forward_between_backward_and_update", "the single validation forward"),
     ])
 
 CONC = """From Coq Require Import List Arith Bool Permutation.
